@@ -2,6 +2,7 @@ package cons
 
 import (
 	"fmt"
+	"github.com/Fantom-foundation/lachesis-base/inter/dag"
 
 	"github.com/Fantom-foundation/lachesis-base/hash"
 	"github.com/Fantom-foundation/lachesis-base/inter/idx"
@@ -56,7 +57,7 @@ func ExploreIndex(c *core.Ctx, report string) {
 		{"zero", vecfc.IndexConfig{Caches: vecfc.IndexCacheConfig{}}},
 		{"default", vecfc.DefaultConfig(cachescale.Identity)},
 	}
-	modes := []string{"plain", "drop", "reset"}
+	modes := []string{"plain", "drop", "reset", "prevepoch", "crossreset"}
 	item := 0
 	capHit := false
 	visitDAG := func(d *lref.DAG) {
@@ -91,6 +92,9 @@ func ExploreIndex(c *core.Ctx, report string) {
 			cfg, mode := cfgs[vr.ci], vr.mode
 			ideals, edges, complete := Lattice(d, 20000, c.OutOfBudget, func(path []int, e int, nm uint64) bool {
 				node := NewIdxNode(vals, cfg.cfg)
+				if mode == "prevepoch" {
+					node = NewIdxNodeAfterSmallerEpoch(vals, cfg.cfg)
+				}
 				seq := append(append([]int{}, path...), e)
 				rep := func() interface{} {
 					return map[string]interface{}{"dag": d.String(), "order": seq, "index_config": cfg.name, "mode": mode}
@@ -144,6 +148,32 @@ func ExploreIndex(c *core.Ctx, report string) {
 						}
 					}
 					return true
+				}
+				if mode == "crossreset" {
+					// an alternative parents-first order of the same event set: always take the enabled event with the
+					// largest index (the lattice paths prefer small ones)
+					var alt []dag.Event
+					done := uint64(0)
+					for len(alt) < len(seq) {
+						for x := len(evs) - 1; x >= 0; x-- {
+							if nm&(1<<uint(x)) == 0 || done&(1<<uint(x)) != 0 {
+								continue
+							}
+							ok := true
+							for _, p := range d.Events[x].Parents {
+								ok = ok && done&(1<<uint(p)) != 0
+							}
+							if ok {
+								alt = append(alt, evs[x])
+								done |= 1 << uint(x)
+								break
+							}
+						}
+					}
+					if crit := node.CrossReset(alt); crit != "" {
+						c.Violation("index/cross-reset-failed", rep(), "re-indexing into a second database and resetting back failed: %s %v", crit, rep())
+						return false
+					}
 				}
 				if !check(node, "warm") {
 					return false
